@@ -960,8 +960,9 @@ def _fence_after_takeover(res: P.CaseResult) -> List[str]:
 def replay(ctx, payload) -> int:
     key = str(payload.get("key", ""))
     c = payload.get("case") or {}
-    if c.get("probe") == "real-fork-names":
-        _reports, dup = _fork_probe_names(int(c.get("workers", 2)), int(c.get("attempts", 2)))
+    pr = c.get("case") if isinstance(c.get("case"), dict) and c["case"].get("probe") else c
+    if pr.get("probe") == "real-fork-names":
+        _reports, dup = _fork_probe_names(int(pr.get("workers", 2)), int(pr.get("attempts", 2)))
         print("replay:", f"STILL FAILS: forked workers wrote the same metadata file name(s) {dup}" if dup else "passes now")
         return 1 if dup else 0
     if not c.get("case"):
